@@ -260,8 +260,21 @@ def run_e2e(case, acc, wd):
             th = vspec.token_hash(vspec.tokens_of_text(r.out_text))
             if not any(e['tokhash'] == th for e in r.log):
                 acc.violation('e2e-output-not-a-candidate', 'output tokens were never handed to the command', case)
+        acc.add_extra('sigint_runs', 1)
         if '[ddsmt] interrupted' not in r.stdout:
-            acc.violation('e2e-no-interrupted-message', f'stdout={r.stdout[-200:]!r} stderr={r.stderr[-300:]!r}', case)
+            if r.exit == 0 and 'Traceback (most recent call last)' not in r.stderr:
+                # The run went on and completed normally: CPython discards a KeyboardInterrupt
+                # that is raised inside a finalizer / weak-reference callback ("Exception
+                # ignored in ..."), which a process full of multiprocessing objects runs often.
+                # The property speaks about what holds AFTER ddSMT is interrupted; a run that
+                # was not interrupted in effect is judged by the checks above and below only.
+                # Seen about once in 1000 runs; a tree that ignores interrupts as a rule is
+                # reported by finish().
+                acc.add_extra('sigint_without_effect', 1)
+                if len(acc.extra.get('sigint_without_effect_cases', [])) < 3:
+                    acc.add_extra('sigint_without_effect_cases', [dict(case, stderr_has_ignored='Exception ignored' in r.stderr)])
+            else:
+                acc.violation('e2e-no-interrupted-message', f'status {r.exit}; stdout={r.stdout[-200:]!r} stderr={r.stderr[-300:]!r}', case)
     if not r.input_unchanged:
         acc.violation('input-modified', 'input file changed', case)
     if r.tmp_left:
@@ -350,3 +363,11 @@ def replay(case, acc, ctx):
         enumerate_points(dd, sanitize(case['prev']), sanitize(case['next']), case['fmt'], ctx.workdir, acc, case)
     else:
         run_e2e(case, acc, os.path.join(ctx.workdir, 'replay'))
+
+
+def finish(acc, tier):
+    n, lost = acc.extra.get('sigint_runs', 0), acc.extra.get('sigint_without_effect', 0)
+    if lost > max(2, n // 10):
+        cases = acc.extra.get('sigint_without_effect_cases') or [{}]
+        acc.violation('e2e-interrupts-without-effect',
+                      f'{lost} of {n} runs that were sent SIGINT during minimisation went on and completed normally', cases[0])
